@@ -11,7 +11,7 @@ field("RankAttrs._id", "str")
 for f, q in ((FB, "Fiber.getRankAttrs"), (RK, "Rank.getFormat"), (RA, "RankAttrs.getFormat"), (RA, "RankAttrs.getId")):
     contract(f, q, inline=True)
 
-BOOK_SAME = "self._saved_pos == old(self._saved_pos) and self._saved_count == old(self._saved_count) and self._saved_dist == old(self._saved_dist)"
+BOOK_SAME = "self._saved_pos == old(self._saved_pos)"
 ALLOCD = "forall(lambda k: allocated(result.seq[k][1]), 0, len(result.seq))"
 ASC = "forall(lambda a, b: implies(0 <= a and a < b and b < len(result.seq), result.seq[a][0] < result.seq[b][0]))"
 STORED = ("forall(lambda k: exists(lambda j: 0 <= j < len(self.coords) and self.coords[j] == result.seq[k][0] and self.payloads[j] is result.seq[k][1]), "
@@ -52,7 +52,7 @@ contract(F, "__iter__",
          requires=["wf(self)", "not Metrics.collecting",
                    # compressed: any rank; uncompressed: leaf rank holding boxes (the shape walk makes default boxes)
                    "%s == 'C' or (%s == 'U' and %s)" % (FMT, FMT, " and ".join("(%s)" % x for x in LEAFBOX))],
-         modifies=[],
+         modifies=["self._saved_count", "self._saved_dist"],
          ensures={"C07 C04": [
              ASC, ALLOCD,
              "implies(self.g_leaf and %s, forall(lambda k: typeis(result.seq[k][1], 'Payload'), 0, len(result.seq)))" % BOXES,
@@ -104,7 +104,7 @@ SCALED = ("forall(lambda j: self.payloads[j].value == (old_value(self.payloads[j
           "if old_value(self.payloads[j]) != self.g_default else old_value(self.payloads[j])), 0, len(self.payloads))")
 contract(FB, "Fiber.__imul__", cases=[dict(self="Fiber", other="U")], case_names=["scalar"], returns="Fiber",
          requires=["wf(self)", "not Metrics.collecting", "self.g_leaf", BOXES, DISTINCT_BOXES, "%s == 'C'" % FMT],
-         modifies=COUNTERS + ["any:Payload.value"],
+         modifies=COUNTERS + ["any:Payload.value", "self._saved_count", "self._saved_dist"],
          ensures={"C11": [
              "result is self",
              # every element keeps its coordinate and its box; every non-empty box holds the product, empty (default-valued) ones are left alone
